@@ -20,6 +20,10 @@ DecodeReason(e) ==
   ELSE IF e.f # e.want THEN "field_" \o FirstDiff(e.f, e.want, 1)
   ELSE IF e.out # e.want.Payload THEN "returned_bytes"
   ELSE IF e.head # (e.want.S = 1) THEN "partition_head"
+  \* "to exactly the encoded field values": also when the VP8Packet has decoded another descriptor before
+  ELSE IF e.used.res # "ok" THEN "wellformed_descriptor_rejected_by_used_packet"
+  ELSE IF e.used.f # e.want THEN "used_packet_field_" \o FirstDiff(e.used.f, e.want, 1)
+  ELSE IF e.used.out # e.want.Payload THEN "used_packet_returned_bytes"
   ELSE ""
 ObservedId(e) == LET r == RefDecode(e.frags[1]) IN IF r.f.I = 1 THEN r.f.PictureID ELSE 0
 PayloadReason(e, id, known) ==
